@@ -699,7 +699,8 @@ func GenNotations(t *rapid.T, m *Method, src, dst StructDecl, uf *UserFuncs, pf 
 				// also on methods without error result: such a converter must not be wired in (C07)
 				retErr = rapid.IntRange(0, 3).Draw(t, "cerrHeavy") != 0
 			}
-			ptrArg := !strings.HasPrefix(s.Home, "*") && !strings.HasSuffix(s.Path, "()") && rapid.IntRange(0, 5).Draw(t, "cptr") == 0
+			// a converter that takes a pointer to the source's type (also a pointer to a pointer)
+			ptrArg := !strings.HasSuffix(s.Path, "()") && rapid.IntRange(0, 5).Draw(t, "cptr") == 0
 			uf.ToSetup = rapid.IntRange(0, 2).Draw(t, "convInSetup") == 0
 			name := uf.Converter(s.Home, d.Home, retErr, ptrArg)
 			if s.Path == d.Path && rapid.Bool().Draw(t, "omitDst") {
